@@ -206,6 +206,7 @@ func (e *Exec) finishIntrinsic(st *State, fr *Frame, x *ssa.Call, out Outcome, i
 // not fork. Used for predicates applied to concrete arguments.
 func (e *Exec) callSync(st *State, cl *Closure, args []Value) Value {
 	s2 := st.Clone()
+	s2.sched = nil // runs to completion on its own frame stack, whatever mode the caller is in
 	var result Value
 	nf := e.newFrame(cl.Fn, args, cl.Bind)
 	nf.onReturn = func(_ *State, res Value) Value { result = res; return res }
